@@ -105,6 +105,7 @@ void p4_split(void) {
             unsigned tl = P4_PATTERN == 0 ? 1 : P4_PATTERN == 1 ? 2 : P4_PATTERN == 2 ? ((t & 1) ? 3 : 1) : (unsigned)(t % 4) + 1;
             for (unsigned k = 0; k < tl; ++k) { VASSUME(IN.s[p] != '\0' && IN.s[p] != ' '); p++; }
             if (t + 1 < P4_NTOK || P4_TRAIL) IN.s[p++] = ' ';
+            if (t + 1 == P4_NTOK && P4_TRAIL == 2) IN.s[p++] = ' ';   /* two trailing separators */
             bool dbl = (P4_DOUBLE == 1 && t == 0) || (P4_DOUBLE == 2 && t == P4_NTOK / 2) || (P4_DOUBLE == 3 && t == P4_NTOK - 2);
             if (dbl && t + 1 < P4_NTOK) IN.s[p++] = ' ';   /* an empty token */
         }
